@@ -23,7 +23,9 @@ type undoItem struct {
 func (h *Sources) Save() {
 	defer h.Reset()
 
-	if h.skip {
+	// Once the line is accepted it may have been written to the sources:
+	// positions counted from the newest entry designate other lines.
+	if h.skip || h.accepted {
 		return
 	}
 
